@@ -2,7 +2,8 @@
    Only statements here; every proof is `exact <lemma>` into Proofs/.  All theorems hold for an arbitrary
    user-code oracle `body` (called with ORIGINAL parameter names) and output picker `pick`. *)
 From Verif Require Import Base.Prelude Base.StrOrd Base.StrUtil Base.Graph Model.Pipe Model.Rewrite Model.Alias
-  Proofs.GraphFacts Proofs.RewriteFacts Proofs.AliasFacts Proofs.NestFacts Proofs.SplitFacts Proofs.MultiNestFacts Proofs.SimplifyFacts Proofs.C10Witness.
+  Proofs.GraphFacts Proofs.RewriteFacts Proofs.AliasFacts Proofs.NestFacts Proofs.SplitFacts Proofs.MultiNestFacts Proofs.SimplifyFacts Proofs.C10Witness
+  Proofs.AliasOwnFacts Proofs.AliasSepFacts Corr.PipeObs Corr.Run_C10 Proofs.C10Capstone.
 
 (* ---------- renaming ---------- *)
 (* rename_preserves: for a renaming that is one-to-one on the names involved, the renamed pipeline evaluates the
@@ -173,6 +174,53 @@ Example C10_example_isolated :
          /\ exists h3, Alias.step (fun _ m => m) h2 (Alias.HUpdateDefaults Q [(s "x", s "dx")]) = Some (h3, None)
                         /\ Alias.pobs h3 P = Alias.pobs h2 P /\ Alias.pobs h3 Q <> Alias.pobs h2 Q).
 Proof. exact alias_instance. Qed.
+
+(* ownership across operation SEQUENCES.  Sep h R: the pipelines R are well-formed object trees (every object
+   reachable from a root - the Pipeline object, its PipeFunc objects, the inner pipelines of nested functions -
+   exists and is reached once) and no object belongs to two of them; they may share any number of dicts.
+   Every operation on pipelines of R keeps Sep and adds the pipeline it returns to the roots: copies, joins, pickles,
+   simplified and split pipelines own fresh objects; the in-place operations keep the objects of their target or
+   add fresh ones. *)
+Theorem C10_step_sep : forall spec_ren h R x h' r, Sep h R -> incl (operands x) R ->
+  Alias.step spec_ren h x = Some (h', r) -> Sep h' (R ++ result_roots r).
+Proof. exact step_sep. Qed.
+Print Assumptions C10_step_sep.
+
+(* a pipeline built from descriptions is such a root (and so is every pipeline built after it) *)
+Theorem C10_build_sep : forall h ds h' P R, Alias.build h ds = Some (h', P) -> Sep h R -> AliasFacts.prefix h h' /\ Sep h' (R ++ [P]).
+Proof. exact build_sep. Qed.
+Print Assumptions C10_build_sep.
+
+(* mutation_isolated along EVERY sequence (the disjointness of the intermediate heaps is derived, not assumed as in
+   C10_mutation_isolated_seq): starting from separated roots, along any sequence of operations on them and on the
+   pipelines those operations return (steps_r checks only that the operands are roots), the observable state of a
+   root q changes only through the operations applied to q itself *)
+Theorem C10_mutation_isolated_everywhere : forall spec_ren q v xs h R h' R',
+  Sep h R -> In q R -> steps_r spec_ren h R xs = Some (h', R') ->
+  (forall x, In x xs -> Alias.target x <> Some q) ->
+  Alias.pobs h q = Some v -> Alias.pobs h' q = Some v /\ Sep h' R'.
+Proof. exact mutation_isolated_everywhere. Qed.
+Print Assumptions C10_mutation_isolated_everywhere.
+
+Example C10_example_sep :
+  let ds := [ {| Alias.d_name := s "f"; Alias.d_outs := [s "a"]; Alias.d_params := [(s "x", s "x"); (s "y", s "y")];
+                 Alias.d_sigd := []; Alias.d_defs := [(s "y", s "dy")]; Alias.d_bound := []; Alias.d_cached := false |} ] in
+  exists h P, Alias.build [] ds = Some (h, P) /\ Sep h [P]
+    /\ exists h2 Q h3, steps_r no_spec_ren h [P] [Alias.HCopy P] = Some (h2, [P; Q])
+       /\ steps_r no_spec_ren h [P] [Alias.HCopy P; Alias.HUpdateDefaults Q [(s "x", s "dx")]; Alias.HDrop Q (s "a")] = Some (h3, [P; Q])
+       /\ Alias.pobs h3 P = Alias.pobs h P /\ Alias.pobs h3 Q <> Alias.pobs h2 Q.
+Proof. exact sep_instance. Qed.
+
+(* capstone for the aliasing probes of the correspondence (kind CAlias): for EVERY case - any pipeline description,
+   rewrite, side, mutation and calls - the observation computed on the heap model satisfies the executable statement
+   spec_ok, unless the case is outside the domain of the model (an operation refuses: bad_case, which the harness
+   counts as a failure, never as agreement).  So spec_bad = 0 for this kind is a theorem, and the correspondence
+   run compares the implementation with an observation that is PROVEN to satisfy the property. *)
+Theorem C10_alias_spec_ok : forall ds rw side m callA callB,
+  run (CAlias ds rw side m callA callB) = bad_case
+  \/ spec_ok (CAlias ds rw side m callA callB) (run (CAlias ds rw side m callA callB)) = true.
+Proof. exact alias_spec_ok. Qed.
+Print Assumptions C10_alias_spec_ok.
 
 (* ---------- dotted keys vs nested dicts ---------- *)
 (* Pipeline._flatten_scopes expands dicts in place: whatever mixture of nested dicts and dotted keys is passed
